@@ -235,6 +235,13 @@ def enabled_guard(ctx):
     fn = db.func("cache.Cache._ctx_get_or_create")
     g = cfgmod.function_cfg(fn)
     impl = calls(fn, "self.impl.get_or_create")
+    # the switch is looked at on every call: never through a memoised attribute
+    frozen = [m for m in db.cls("cache.Cache").body if isinstance(m, ast.FunctionDef) and any("memoized" in src(d) or "cached_property" in src(d) or "lru_cache" in src(d) for d in m.decorator_list)
+              and any(isinstance(a, ast.Attribute) and a.attr == "cache_enabled" for a in walk_func(m))]
+    if frozen:
+        ctx.violation("switch-read-once", db.where(frozen[0]),
+                      "Cache.%s reads template.cache_enabled but is memoised (%s): the switch is looked at the first time a cached section is reached and never again, so cache_enabled=False set afterwards still replays stored entries (and the reverse)" % (frozen[0].name, src(frozen[0].decorator_list[0])))
+        return
     ctx.require(impl, "_ctx_get_or_create does not call the implementation")
     en = "self.template.cache_enabled"
     crp = pn(fn, 2)
